@@ -270,6 +270,7 @@ impl World for Experiment {
         for (k, v) in &exp.fired {
             bump(&mut out.counters, &format!("fault:{k}"), *v);
         }
+        bump(&mut out.counters, "max:objective calls in flight at once", exp.max_inflight as u64);
         if exp.max_inflight >= 2 {
             bump(&mut out.counters, "probe:experiments with overlapping runs (>= 2 objective calls in flight)", 1);
         }
